@@ -352,6 +352,12 @@ func FormatEmail(s string) Tri {
 		strings.HasPrefix(s, " ") || strings.HasSuffix(s, " ") || strings.HasPrefix(s, "<") || strings.HasSuffix(s, ">") {
 		return No
 	}
+	// The format means one bare address (the library's own tests pin "Name <a@b.c>" and "a@b.c " as invalid).
+	// Without a quoted local part or a domain literal, blanks and the mailbox punctuation of RFC 5322
+	// (angle brackets, comments, group syntax, lists) cannot be part of it.
+	if !strings.ContainsAny(s, "\"[") && strings.ContainsAny(s, " \t\r\n<>(),;:") {
+		return No
+	}
 	return Unknown
 }
 
